@@ -24,8 +24,9 @@ from zorg.storage.sql import SQLSession
 _LOGGER = Logger(__name__)
 
 # Hash map entry of a page that has been indexed but whose file has not been
-# rewritten yet (see reindex_database).
-_WRITE_BACK_PENDING = ""
+# rewritten yet (see reindex_database). It is followed by the number of
+# write-backs that are still to come and matches no file hash.
+_WRITE_BACK_PENDING = "write-back pending: "
 
 _AddThingToFirstLine = Callable[[str, str], str]
 _GetThing = Callable[[Note], str]
@@ -263,7 +264,9 @@ def reindex_database(
     for zorg_page in session.repo.seen_pages:
         if zorg_page.events:
             zorg_page_name = c.strip_zdir(cmd.zettel_dir, zorg_page.path)
-            file_to_hash[zorg_page_name] = _WRITE_BACK_PENDING
+            file_to_hash[zorg_page_name] = (
+                f"{_WRITE_BACK_PENDING}{len(zorg_page.events)}"
+            )
     # The hash map is what tells the next run that there is nothing left to
     # do, so the index is committed before it is written.
     session.commit()
@@ -496,5 +499,14 @@ def _update_zo_file(
         if file_hash_path.exists()
         else {}
     )
-    file_to_hash[c.strip_zdir(zdir, zo_path)] = _hash_file(zo_path)
+    # ... and only once the last write-back of this file is done.
+    zo_name = c.strip_zdir(zdir, zo_path)
+    old_hash = file_to_hash.get(zo_name, "")
+    num_pending = 0
+    if old_hash.startswith(_WRITE_BACK_PENDING):
+        num_pending = int(old_hash[len(_WRITE_BACK_PENDING) :]) - 1
+    if num_pending > 0:
+        file_to_hash[zo_name] = f"{_WRITE_BACK_PENDING}{num_pending}"
+    else:
+        file_to_hash[zo_name] = _hash_file(zo_path)
     _write_file_hash_to_disk(file_hash_path, file_to_hash)
